@@ -155,6 +155,35 @@ S = {
         "ldb_copy followed by reuse_logs=1 on whichever side is opened next: source and copy append to shared inodes", ""),
     "c20-destroy-removes-foreign-LOG-dot-files": ("C20", "C20",
         "a foreign file named LOG.<anything> in the database directory, then ldb_destroy / ldb_copy", ""),
+    # ---- round 3 (twelve more sub-agents; told which mechanisms rounds 1-2 had used for their property)
+    "c01-expanded-inputs-miss-boundary-file": ("C01", "C01,C14,C06",
+        "snapshot-pinned versions of one key cut across two files B1|B2 of a level; a compaction that starts from ANOTHER file of the level "
+        "whose next-level input stretches the range into B1 but stops short of the shared key: B1 enters through the input-growing step only",
+        "histmon template T5 (straddling file reached only through the input-growing step) was added for it"),
+    "c04-stale-base-sequence-read-before-writer-queue-wait": ("C04", "C04,C08",
+        "two or more threads inside ldb_write at once: a writer that waited in the queue while another leader committed reuses a stale base sequence", ""),
+    "c07-live-file-walk-stops-at-version-adding-nothing": ("C07", "C07,C13",
+        "iterator A on files below level 0, a compaction replaces them, iterator B pins the then-current version, one more flush: A's files are collected", ""),
+    "c10-iter-cleanup-drops-imm-ref-before-mutex": ("C10", "C10",
+        "an iterator created while a flush is pending (imm != NULL) destroyed while another thread touches imm->refs under the mutex", ""),
+    "c11-l0-compaction-inputs-unverified": ("C11", "C11",
+        "damage inside a data block of a level-0 table, then a compaction that takes the table as level-0 input, then a read", ""),
+    "c13-trivial-move-pins-input-version": ("C13", "C13",
+        "an automatic trivial-move compaction (leaks a version reference), later compactions replace tables that existed then; directory compared with the live set in the same process", ""),
+    "c14-level0-input-expansion-without-restart": ("C14", "C14,C01",
+        "same change as c01-l0-input-expansion-no-rescan, written independently a fourth time", ""),
+    "c15-unknown-type-keeps-fragment-state": ("C15", "C15,C11",
+        "a record of >= 3 fragments whose MIDDLE fragment gets an unknown type byte that passes the checksum (checksums off as in ldb_repair, or CRC altered to match)",
+        "fmtmon_log alteration kind `type byte replaced with matching CRC` was added for it; on the unchanged tree it exposed defect F12 (fixed, bdca5ff)"),
+    "c16-separator-bump-checks-start-length": ("C16", "C16",
+        "adjacent keys P c X.. and P (c+1) with a data-block boundary exactly between them, point lookup through the raw bytewise comparator", ""),
+    "c17-reused-manifest-writer-starts-at-block-offset-zero": ("C17", "C17,C05,C03",
+        "reuse_logs=1, a reopen that keeps a MANIFEST whose size is not a multiple of 32 KiB, enough edits appended to cross the next block boundary, a later open",
+        "fmtmon_edit replay cases with 1.5-3 KB keys (reused MANIFESTs grow across block boundaries within a few edits) were added for it"),
+    "c18-snappy-copy-offset-off-by-one": ("C18", "C18,C16",
+        "a Snappy copy element whose offset is exactly the bytes produced so far plus one", ""),
+    "c19-repair-builds-tables-with-user-filter-policy": ("C19", "C19",
+        "filter policy set for ldb_repair and the following open, a live log (or rewritten table) at repair time, point lookups", ""),
 }
 
 
@@ -233,6 +262,45 @@ def run_checks(name, seed="1"):
                 when=time.strftime("%Y-%m-%d %H:%M"), verif_commit=sh("git -C %s rev-parse --short HEAD" % VERIF).strip(), results=res)
 
 
+def import_logs(name):
+    """round 3: lib/ingest_seed.sh left .confirm.log / .seedrun.log in the seed directory; turn them into meta.json"""
+    d = os.path.join(SEEDED, name)
+    upd = {}
+    cl, rl = os.path.join(d, ".confirm.log"), os.path.join(d, ".seedrun.log")
+    if os.path.exists(cl):
+        out = open(cl).read()
+        m = re.search(r"CONFIRM \S+: clean_demo=(\S+) patched_demo=(\S+) tests=\[(.*)\]", out)
+        if m:
+            res = dict(command="lib/confirm_seed.sh seeded/%s" % name, when=time.strftime("%Y-%m-%d %H:%M", time.localtime(os.path.getmtime(cl))),
+                       clean_demo_exit=m.group(1), patched_demo_exit=m.group(2), pinned_suite_with_patch=m.group(3))
+            if "failed: 9 - db," in m.group(3) and m.group(3).count(" - ") == 1:
+                res["note"] = ("only t-db failed in the loaded full run (its load-sensitive assertion t-db.c:1807 also fails on the "
+                               "unchanged tree under load, DESIGN.md 8.5); re-run alone below")
+                res["t_db_alone"] = tdb_alone(name)
+            upd["confirmed"] = res
+    if os.path.exists(rl):
+        res = []
+        for line in open(rl).read().splitlines():
+            try:
+                j = json.loads(line)
+            except ValueError:
+                continue
+            if "property" in j:
+                res.append(dict(property=j["property"], tier="quick", seed="1", exit=j["exit"], violation_keys=j.get("violation_keys", {}),
+                                first_message=j.get("first_message", "")[:300], wall_s=j.get("wall_s")))
+        upd["checks_run_first"] = dict(note="first run, right after the change arrived (before any strengthening for it)",
+                                       when=time.strftime("%Y-%m-%d %H:%M", time.localtime(os.path.getmtime(rl))), results=res)
+    m = load_meta(name)
+    m.update(upd)
+    if "checks_run" not in m and "checks_run_first" in upd:
+        m["checks_run"] = dict(upd["checks_run_first"], note="same as checks_run_first (no strengthening was needed)")
+    save_meta(name, m)
+    for f in (cl, rl):
+        if os.path.exists(f):
+            os.remove(f)
+    sys.stderr.write("imported %s\n" % name)
+
+
 def results_md():
     rows = []
     for name in sorted(S):
@@ -259,6 +327,12 @@ def main():
     args = sys.argv[1:]
     do_confirm = "--confirm" in args
     do_run = "--run" in args
+    if "--import-logs" in args:
+        for n in sorted(S):
+            if os.path.exists(os.path.join(SEEDED, n, ".confirm.log")) or os.path.exists(os.path.join(SEEDED, n, ".seedrun.log")):
+                import_logs(n)
+        results_md()
+        return 0
     jobs = 1
     if "--jobs" in args:
         jobs = int(args[args.index("--jobs") + 1])
